@@ -191,6 +191,7 @@ class DirtyCache(Component):
         self.facts = []          # discharged covariant updates etc. (for evidence)
         self.detseen = {}
         self.det_stmt = {}
+        self.det_tests = {}
         self.rot_sites = []
 
     # state: dict key=(oid, cache, part) -> status
@@ -226,6 +227,17 @@ class DirtyCache(Component):
 
     def on_branch(self, interp, st, test_node, tv, truth):
         """`"edges" in self.__dict__` : on the false branch the cached_property is absent."""
+        # a branch on the determinant of an eigenvector matrix: remember the test (the guard of the normalisation),
+        # whether it is written in the `if` itself or bound to a local first
+        y = tv.extra
+        while y and y[0] == "not":
+            y = y[1].extra
+        if y and y[0] == "cmp":
+            for side in [y[2]] + list(y[3]):
+                e_ = side.extra
+                if e_ and isinstance(e_, tuple) and e_[0] == "det-of" and e_[1] is not None and e_[1].extra \
+                        and isinstance(e_[1].extra, tuple) and e_[1].extra[0] == "eigvecs":
+                    self.det_tests[id(e_[1].extra[1])] = test_node
         x = tv.extra
         neg = False
         if x and x[0] == "not":
@@ -310,6 +322,12 @@ class DirtyCache(Component):
                 eid = id(cur.extra[1])
                 guard = self.det_stmt.get(eid)
                 inside = guard is not None and any(n is ev.node for n in ast.walk(guard))
+                gtest = self.det_tests.get(eid)
+                if not inside and gtest is not None and interp.frames:
+                    # the `if` statement(s) controlled by the remembered determinant test
+                    for n_ in ast.walk(interp.frames[-1].fn.node):
+                        if isinstance(n_, ast.If) and n_.test is gtest and any(m is ev.node for m in ast.walk(n_)):
+                            inside = True
                 if not inside:
                     state["__det"] = state["__det"] - {eid}
             return
